@@ -354,6 +354,9 @@ func initOsStubs() {
 	reg("io/ioutil.ReadAll", readAll)
 	reg("os.ReadFile", func(ex *Exec, fn *ssa.Function, args []Value, caller *Frame) Value {
 		name := strArg(ex, args[0], "os.ReadFile")
+		if ex.hasNUL(name) {
+			return Tuple{Slice{Nil: true}, ex.pathError("open", name, "ErrInvalid")}
+		}
 		f := ex.findFile(name)
 		if f == nil {
 			return Tuple{Slice{Nil: true}, ex.pathError("open", name, "ErrNotExist")}
@@ -367,9 +370,16 @@ func initOsStubs() {
 	reg("os.Rename", func(ex *Exec, fn *ssa.Function, args []Value, caller *Frame) Value {
 		from, to := strArg(ex, args[0], "os.Rename"), strArg(ex, args[1], "os.Rename")
 		ex.fs().renames++
+		if ex.hasNUL(from) || ex.hasNUL(to) {
+			return ex.pathError("rename", to, "ErrInvalid")
+		}
 		f := ex.findFile(from)
 		if f == nil {
 			return ex.pathError("rename", from, "ErrNotExist")
+		}
+		if ex.isDir(to) {
+			// a file cannot replace a directory
+			return ex.pathError("rename", to, "ErrExist")
 		}
 		dir, _ := ex.dirOf(to)
 		if !ex.dirExists(dir) {
@@ -385,6 +395,9 @@ func initOsStubs() {
 	})
 	reg("os.Remove", func(ex *Exec, fn *ssa.Function, args []Value, caller *Frame) Value {
 		name := strArg(ex, args[0], "os.Remove")
+		if ex.hasNUL(name) {
+			return ex.pathError("remove", name, "ErrInvalid")
+		}
 		f := ex.findFile(name)
 		if f == nil {
 			return ex.pathError("remove", name, "ErrNotExist")
@@ -422,6 +435,14 @@ func initOsStubs() {
 		if allConc {
 			// directory order: sorted by file name
 			sort.Slice(ents, func(i, j int) bool { return ents[i].conc < ents[j].conc })
+		} else {
+			// names with symbolic bytes: insertion sort, every comparison decided
+			// on this path (forks where both orders are possible)
+			for i := 1; i < len(ents); i++ {
+				for j := i; j > 0 && ex.strLess(ents[j].name, ents[j-1].name); j-- {
+					ents[j], ents[j-1] = ents[j-1], ents[j]
+				}
+			}
 		}
 		dt := ex.P.namedType("io/fs", "DirEntry")
 		out := make([]Value, len(ents))
@@ -430,4 +451,19 @@ func initOsStubs() {
 		}
 		return Tuple{Slice{A: out}, Iface{}}
 	})
+}
+
+// strLess decides a < b (bytewise) on this path.
+func (ex *Exec) strLess(a, b Str) bool {
+	if a.HasOpaque() || b.HasOpaque() {
+		ex.unsupported("ordering of names with opaque content")
+	}
+	ab, bb := flatBytes(a), flatBytes(b)
+	for i := 0; i < len(ab) && i < len(bb); i++ {
+		if ex.branch(ex.ts.Eq(ab[i], bb[i])) {
+			continue
+		}
+		return ex.branch(ex.ts.Ult(ab[i], bb[i]))
+	}
+	return len(ab) < len(bb)
 }
